@@ -108,6 +108,8 @@ EmptyContent(solver) ==
    xcols |-> {}, xrows |-> {}, solver |-> solver,
    tol |-> 7]          \* model.tolerance = 10^-tol (Configuration().tolerance = 1e-7)
 NoModel == [none |-> TRUE]
+\* an expected attribute value the specification does not determine (not compared with the observation)
+Wild == -77
 NoDet == [present |-> FALSE, st |-> [m \in {} |-> 0], lb |-> 0, ub |-> 0, rule |-> [k |-> "none", id |-> "", ch |-> <<>>],
           sbo |-> "none", ann |-> 0, note |-> 0, attr |-> [name |-> 0, formula |-> 0, charge |-> 99, subsys |-> 0]]
 IsModel(c) == "rxns" \in DOMAIN c
@@ -395,9 +397,19 @@ A_RemoveUserVar(C, name) == IF name \notin C.xcols THEN FailLoose(C, "skip") ELS
 
 \* groups
 A_AddGroup(C, g, members) ==
-  IF ~(members \subseteq (C.rxns \cup C.mets \cup C.genes)) THEN FailLoose(C, "skip")
+  LET newm == members \cap (MetU \ C.mets) IN
+  IF ~((members \ newm) \subseteq (C.rxns \cup C.mets \cup C.genes)) THEN FailLoose(C, "skip")
   ELSE IF g \in C.groups THEN Ok(C)
-  ELSE Ok([C EXCEPT !.groups = @ \cup {g}, !.member[g] = members])
+  \* "If any group contains members that are not in the model, these members are added to the model as well"
+  \* (exercised with metabolites)
+  ELSE Ok([C EXCEPT !.mets = @ \cup newm, !.groups = @ \cup {g}, !.member[g] = members])
+\* group.add_members([...]) / group.remove_members([...]) on a group of the model
+A_GroupAddMembers(C, g, xs) ==
+  IF g \notin C.groups \/ ~(xs \subseteq (C.rxns \cup C.mets \cup C.genes)) THEN FailLoose(C, "skip")
+  ELSE Ok([C EXCEPT !.member[g] = @ \cup xs])
+A_GroupRemoveMembers(C, g, xs) ==
+  IF g \notin C.groups \/ ~(xs \subseteq (C.rxns \cup C.mets \cup C.genes)) THEN FailLoose(C, "skip")
+  ELSE Ok([C EXCEPT !.member[g] = @ \ xs])
 A_RemoveGroup(C, g) == IF g \in C.groups THEN Ok([C EXCEPT !.groups = @ \ {g}]) ELSE Ok(C)
 \* x.name / metabolite.formula / metabolite.charge / reaction.subsystem = token
 A_SetAttr(C, x, field, v) ==
@@ -423,8 +435,8 @@ A_RoundTrip(C, fmt) ==
   ELSE Ok([C EXCEPT !.solver = "glpk", !.xcols = {}, !.xrows = {}, !.tol = 7,
                     !.func = [g \in GeneU |-> TRUE],
                     !.groups = IF fam = "sbml" THEN @ ELSE {},
-                    \* subsystems are not among what C10 lists for SBML (-1 = not compared)
-                    !.attr = IF fam = "sbml" THEN [x \in AllIds |-> [C.attr[x] EXCEPT !.subsys = -1]] ELSE @])
+                    \* subsystems are not among what C10 lists for SBML (Wild = not compared)
+                    !.attr = IF fam = "sbml" THEN [x \in AllIds |-> [C.attr[x] EXCEPT !.subsys = Wild]] ELSE @])
 
 \* expected detached result of reaction arithmetic (kind: "copy" | "add" | "sub" | "mul")
 ArithResult(C, kind, r, q, k) ==
@@ -485,6 +497,8 @@ ContentOp(op, C) ==
     [] op.a = "RemoveUserVar"      -> A_RemoveUserVar(C, op.name)
     [] op.a = "AddGroup"           -> A_AddGroup(C, op.g, SeqSet(op.members))
     [] op.a = "RemoveGroup"        -> A_RemoveGroup(C, op.g)
+    [] op.a = "GroupAddMembers"    -> A_GroupAddMembers(C, op.g, SeqSet(op.members))
+    [] op.a = "GroupRemoveMembers" -> A_GroupRemoveMembers(C, op.g, SeqSet(op.members))
     [] op.a = "Annotate"           -> A_Annotate(C, op.x, op.v, op.via)
     [] op.a = "SetAttr"            -> A_SetAttr(C, op.x, op.field, op.v)
     [] op.a = "RoundTrip"          -> A_RoundTrip(C, op.fmt)
@@ -510,9 +524,9 @@ ContentActions == {"AddMetabolites", "RemoveMetabolites", "AddReactions", "Remov
                    "SetBounds", "RxnKnockOut", "SetRule", "GeneKnockOut", "KnockOutModelGenes", "RemoveGenes",
                    "RenameGene", "RenameReaction", "RenameMetabolite", "SetObjective", "SetObjCoef", "SetDirection",
                    "SetMedium", "SwitchSolver", "SetTolerance", "AddUserCons", "AddUserVar", "RemoveUserCons", "RemoveUserVar",
-                   "AddGroup", "RemoveGroup", "Annotate", "SetAttr", "Analyze", "RoundTrip", "GetMedium", "Init", "DetachedSetBounds", "RxnArith", "BuildFromString", "SetFunctional", "Repair", "FixObjective"}
+                   "AddGroup", "RemoveGroup", "GroupAddMembers", "GroupRemoveMembers", "Annotate", "SetAttr", "Analyze", "RoundTrip", "GetMedium", "Init", "DetachedSetBounds", "RxnArith", "BuildFromString", "SetFunctional", "Repair", "FixObjective"}
 \* operations that the documentation does NOT declare reversible inside `with model:`
-NotContextAware == {"AddGroup", "RemoveGroup", "Annotate", "SetAttr", "RenameReaction", "RenameMetabolite", "DetachedSetBounds",
+NotContextAware == {"AddGroup", "RemoveGroup", "GroupAddMembers", "GroupRemoveMembers", "Annotate", "SetAttr", "RenameReaction", "RenameMetabolite", "DetachedSetBounds",
                     "SetTolerance"}
 
 \* left.merge(right, inplace=True, objective="left"): the reactions of right whose ids are new to left are added
@@ -521,17 +535,22 @@ NotContextAware == {"AddGroup", "RemoveGroup", "Annotate", "SetAttr", "RenameRea
 SpecsOf(R, C) == LET ids == SelectSeq(RxSeq, LAMBDA r : r \in R.rxns /\ r \notin C.rxns) IN
                  [i \in 1..Len(ids) |-> [id |-> ids[i], st |-> R.S[ids[i]], lb |-> R.lb[ids[i]], ub |-> R.ub[ids[i]],
                                          rule |-> R.rule[ids[i]]]]
-A_Merge(C, R) ==
+\* objective = "left" keeps left's objective; "right" takes right's (coefficients by reaction id, and its direction);
+\* "sum" adds the two coefficient vectors and keeps left's direction
+A_Merge(C, R, obj) ==
   LET C1 == AddRxns(C, SpecsOf(R, C))
       C2 == [C1 EXCEPT !.sbo = [r \in RxU |-> IF r \in C1.rxns \ C.rxns THEN R.sbo[r] ELSE C1.sbo[r]],
-                       !.ann = [x \in AllIds |-> IF x \in (C1.rxns \ C.rxns) THEN R.ann[x] ELSE C1.ann[x]],
-                       !.note = [x \in AllIds |-> IF x \in (C1.rxns \ C.rxns) THEN R.note[x] ELSE C1.note[x]],
+                       !.ann = [x \in AllIds |-> IF x \in (C1.rxns \ C.rxns) \cup (C1.mets \ C.mets) THEN R.ann[x] ELSE C1.ann[x]],
+                       !.note = [x \in AllIds |-> IF x \in (C1.rxns \ C.rxns) \cup (C1.mets \ C.mets) THEN R.note[x] ELSE C1.note[x]],
                        !.attr = [x \in AllIds |-> IF x \in (C1.rxns \ C.rxns) \cup (C1.mets \ C.mets) THEN R.attr[x] ELSE C1.attr[x]],
                        !.xcols = @ \cup R.xcols,
                        \* custom rows only ("assumed to be the same if they have the same name": a row of right named
                        \* like a metabolite of left is not copied); mass balances of right's metabolites are not custom
                        !.xrows = (@ \cup R.xrows) \ C1.mets]
-  IN Ok(C2)
+      C3 == CASE obj = "right" -> [C2 EXCEPT !.objc = [r \in RxU |-> IF r \in C2.rxns THEN R.objc[r] ELSE 0], !.dir = R.dir]
+              [] obj = "sum" -> [C2 EXCEPT !.objc = [r \in RxU |-> IF r \in C2.rxns THEN C.objc[r] + R.objc[r] ELSE 0]]
+              [] OTHER -> C2
+  IN Ok(C3)
 
 Apply(op, St) ==
   LET s == op.s IN
@@ -583,12 +602,16 @@ Apply(op, St) ==
      THEN Skip(St)
      ELSE LET e == ArithResult(St.m[s], op.kind, op.r, op.q, op.k)
               T1 == AddRxns(St.m[op.t], <<[id |-> op.new, st |-> e.S, lb |-> e.lb, ub |-> e.ub, rule |-> e.rule]>>)
+              nm == T1.mets \ St.m[op.t].mets       \* metabolites that arrive with the reaction: copies of the source's
+              src == St.m[s]
           IN \* the result is a copy of r: it carries r's annotation, notes and SBO term
-          Lift(St, op.t, Ok([T1 EXCEPT !.ann[op.new] = St.m[s].ann[op.r], !.note[op.new] = St.m[s].note[op.r],
-                                       !.sbo[op.new] = St.m[s].sbo[op.r], !.attr[op.new] = St.m[s].attr[op.r]]))
+          Lift(St, op.t, Ok([T1 EXCEPT !.ann = [x \in AllIds |-> IF x = op.new THEN src.ann[op.r] ELSE IF x \in nm THEN src.ann[x] ELSE @[x]],
+                                       !.note = [x \in AllIds |-> IF x = op.new THEN src.note[op.r] ELSE IF x \in nm THEN src.note[x] ELSE @[x]],
+                                       !.sbo[op.new] = src.sbo[op.r],
+                                       !.attr = [x \in AllIds |-> IF x = op.new THEN src.attr[op.r] ELSE IF x \in nm THEN src.attr[x] ELSE @[x]]]))
   ELSE IF op.a = "Merge" THEN
      IF ~IsModel(St.m[op.t]) \/ op.t = s \/ St.helper[s] # 0 \/ St.helper[op.t] # 0 THEN Skip(St)
-     ELSE Lift(St, s, A_Merge(St.m[s], St.m[op.t]))
+     ELSE Lift(St, s, A_Merge(St.m[s], St.m[op.t], op.obj))
   \* renaming onto an identifier that some open context will bring back on exit is a clash of the user's
   \* making (the rename is not reversible): out of scope
   ELSE IF op.a = "RenameReaction" /\ (\E k \in 1..Len(St.ctx[s]) : op.new \in St.ctx[s][k].rxns) THEN Skip(St)
@@ -599,9 +622,16 @@ Apply(op, St) ==
   \* model.add_reactions([the detached object]): the reaction comes back as the object now is
   ELSE IF op.a = "ReAddDetached" THEN
        IF ~St.det[s][op.r].present \/ op.r \in St.m[s].rxns THEN Skip(St)
-       ELSE LET d == St.det[s][op.r] IN
-            Lift(St, s, Ok([AddRxns(St.m[s], <<[id |-> op.r, st |-> d.st, lb |-> d.lb, ub |-> d.ub, rule |-> d.rule]>>)
-                              EXCEPT !.sbo[op.r] = d.sbo, !.ann[op.r] = d.ann, !.note[op.r] = d.note, !.attr[op.r] = d.attr]))
+       ELSE LET d == St.det[s][op.r]
+                C1 == AddRxns(St.m[s], <<[id |-> op.r, st |-> d.st, lb |-> d.lb, ub |-> d.ub, rule |-> d.rule]>>)
+                \* metabolites that come back with it are the objects the detached reaction holds, with whatever
+                \* attributes they had when they left the model: not determined here
+                back == C1.mets \ St.m[s].mets
+                wa == [name |-> Wild, formula |-> Wild, charge |-> Wild, subsys |-> Wild] IN
+            Lift(St, s, Ok([C1 EXCEPT !.sbo[op.r] = d.sbo,
+                                      !.ann = [x \in AllIds |-> IF x = op.r THEN d.ann ELSE IF x \in back THEN Wild ELSE @[x]],
+                                      !.note = [x \in AllIds |-> IF x = op.r THEN d.note ELSE IF x \in back THEN Wild ELSE @[x]],
+                                      !.attr = [x \in AllIds |-> IF x = op.r THEN d.attr ELSE IF x \in back THEN wa ELSE @[x]]]))
   ELSE IF op.a = "DetachedSetBounds" /\ St.det[s][op.r].present /\ op.r \notin St.m[s].rxns /\ op.lo <= op.hi THEN
        LET r == IF Len(St.ctx[s]) > 0 THEN Lift([St EXCEPT !.taint[s] = TRUE], s, Ok(St.m[s])) ELSE Lift(St, s, Ok(St.m[s])) IN
        SRes([r.st EXCEPT !.det[s][op.r].lb = op.lo, !.det[s][op.r].ub = op.hi], "none", TRUE, NoRet)
